@@ -487,6 +487,30 @@ def run_property(mod, ctx, replay_path=None):
         "implementation output violates the property: %s" % cases[i].pred_fail,
         {"property": pid, "kind": "property-predicate-on-implementation", "clause": cases[i].pred_fail,
          "case": cases[i].desc, "info": cases[i].info, "n_failing_cases": len(pred_fail_cases)}, True))
+  # focused search: when model and implementation disagree but no generated case violates the property itself,
+  # the module may derive further cases from the disagreeing ones (same configuration, more iterations, other
+  # weights) on which the property predicate is evaluated - the search for a concrete failing input.
+  if bad_cases and not pred_fail_cases and hasattr(mod, "focus") and not replay_path:
+    fdescs = []
+    for i in sorted(bad_cases, key=shrink_key)[:4]:
+      try:
+        fdescs.extend(mod.focus(ctx, cases[i].desc))
+      except Exception as ex:  # pylint: disable=broad-except
+        print("# focus() raised %r" % (ex,))
+    if fdescs:
+      fcases = mod.eval_cases(ctx, fdescs[:40])
+      for c in fcases:
+        if c.pred_fail is not None and not any(
+            known_classes.get(e.get("class")) and known_classes[e.get("class")](c) for e in known):
+          cases.append(c)
+          pred_fail_cases.append(len(cases) - 1)
+      if pred_fail_cases:
+        i = min(pred_fail_cases, key=shrink_key)
+        violations.append((
+            "implementation output violates the property (found by the focused search around a model/implementation "
+            "disagreement): %s" % cases[i].pred_fail,
+            {"property": pid, "kind": "property-predicate-on-implementation", "clause": cases[i].pred_fail,
+             "case": cases[i].desc, "info": cases[i].info, "n_failing_cases": len(pred_fail_cases)}, True))
   broken = []
   if gen_problems:
     broken.append("translator no longer covers the source: %s" % (gen_problems,))
